@@ -149,6 +149,7 @@ func (h *Hub) Run() {
 				}:
 				default:
 					close(client.send)
+					delete(h.state.Players, h.clients[client])
 					delete(h.clients, client)
 				}
 			}
@@ -179,6 +180,7 @@ func (h *Hub) Run() {
 				case client.send <- ServerRoomStateUpdate(h.state):
 				default:
 					close(client.send)
+					delete(h.state.Players, h.clients[client])
 					delete(h.clients, client)
 				}
 			}
